@@ -1,0 +1,13 @@
+//go:build verif
+
+// Contracts for the verif build tag: comment-only, read by /verif/engine (govc).
+package forwarder
+
+//@ # ---- C06 ("echoes the question"): a forwarded reply goes to the client with the CLIENT's ID, the client's CD bit and
+//@ # the client's own spelling of the question name (the upstream's echo was accepted case-insensitively and may differ)
+//@ func (*Forwarder).ServeDNS
+//@   abstract
+//@   nosafety all pre
+//@   assert at store dns.MsgHdr.Id#1: value == req.Id
+//@   assert at store dns.Question.Name#1: value == req.Question[0].Name
+//@   assert at store dns.MsgHdr.CheckingDisabled#2: value == clientCD
